@@ -158,7 +158,9 @@ def make_body(job):
         check('request.high-water-unchanged', s._tag_pool._next == nxt)
       else:
         cover('get-fresh')
-        check('request.fresh-is-next', sand(tag == nxt + 1, s._tag_pool._next == nxt + 1))
+        # a fresh tag extends the range of tags ever issued by at most one (bounded consumption); which fresh tag is
+        # the implementation's choice
+        check('request.fresh-tag-bounded', sand(tag <= nxt + 1, snot(in_list(tag, T))))
       F2, T2, n2 = inv_after(s)
       check('request.registered', len(T2) == nt + 1 and in_list(tag, T2) is not False)
       check('request.free-shrinks', len(F2) == max(0, nf - 1))
